@@ -215,6 +215,70 @@ class ReorderAssignments(ast.NodeTransformer):
             isinstance(st.value, (ast.Name, ast.Attribute, ast.Constant)) and not any(isinstance(n, ast.Call) for n in ast.walk(st.value))
 
 
+class SwapIfElse(ast.NodeTransformer):
+    """if c: A else: B  ->  if not c: B else: A   (plain two-armed ifs; elif chains are left alone)"""
+
+    def visit_If(self, node):
+        self.generic_visit(node)
+        if node.orelse and not (len(node.orelse) == 1 and isinstance(node.orelse[0], ast.If)) and not (len(node.body) == 1 and isinstance(node.body[0], ast.If)):
+            t = node.test
+            neg = t.operand if isinstance(t, ast.UnaryOp) and isinstance(t.op, ast.Not) else ast.UnaryOp(op=ast.Not(), operand=t)
+            return ast.If(test=neg, body=node.orelse, orelse=node.body)
+        return node
+
+
+class ExpandAugAssign(ast.NodeTransformer):
+    """x op= y  ->  x = x op y   for local names and operators that cannot alias a mutable object"""
+
+    SAFE = (ast.Sub, ast.RShift, ast.LShift, ast.BitOr, ast.BitAnd, ast.Mult, ast.FloorDiv, ast.Mod)
+
+    def visit_AugAssign(self, node):
+        if isinstance(node.target, ast.Name) and (isinstance(node.op, self.SAFE) or (isinstance(node.op, ast.Add) and isinstance(node.value, ast.Constant) and isinstance(node.value.value, int))):
+            return ast.Assign(targets=[ast.Name(id=node.target.id, ctx=ast.Store())], value=ast.BinOp(left=ast.Name(id=node.target.id, ctx=ast.Load()), op=node.op, right=node.value), lineno=node.lineno)
+        return node
+
+
+class RenameCompVars(ast.NodeTransformer):
+    """Rename the target variables of every comprehension (scoped to the comprehension)."""
+
+    def _do(self, node):
+        self.generic_visit(node)
+        names = set()
+        for g in node.generators:
+            for n in ast.walk(g.target):
+                if isinstance(n, ast.Name):
+                    names.add(n.id)
+        inner = {m.id for n in ast.walk(node) if isinstance(n, ast.Lambda) for m in ast.walk(n) if isinstance(m, ast.Name)}
+        names -= inner
+        for n in ast.walk(node):
+            if isinstance(n, ast.Name) and n.id in names:
+                n.id = n.id + "_c"
+        return node
+
+    visit_ListComp = visit_SetComp = visit_DictComp = visit_GeneratorExp = _do
+
+
+class SwapEqOperands(ast.NodeTransformer):
+    """a == b -> b == a, likewise != / is / is not (operands without calls, so evaluation order does not matter)"""
+
+    def visit_Compare(self, node):
+        self.generic_visit(node)
+        if len(node.ops) == 1 and isinstance(node.ops[0], (ast.Eq, ast.NotEq, ast.Is, ast.IsNot)) and \
+                not any(isinstance(n, (ast.Call, ast.Await, ast.Yield)) for x in (node.left, node.comparators[0]) for n in ast.walk(x)):
+            return ast.Compare(left=node.comparators[0], ops=node.ops, comparators=[node.left])
+        return node
+
+
+class ElifToNested(ast.NodeTransformer):
+    """if a: A elif b: B else: C  ->  if a: A else: (if b: B else: C) followed by a no-op, so that unparse prints the nested form"""
+
+    def visit_If(self, node):
+        self.generic_visit(node)
+        if len(node.orelse) == 1 and isinstance(node.orelse[0], ast.If):
+            node.orelse = [node.orelse[0], ast.Pass()]
+        return node
+
+
 NEUTRAL = [
     ("reformat (ast.unparse of every module)", None),
     ("rename every local variable", RenameLocals),
@@ -225,6 +289,11 @@ NEUTRAL = [
     ("insert no-op statements", InsertNoops),
     ("extract a call argument into a local", ExtractArgument),
     ("reorder independent adjacent assignments", ReorderAssignments),
+    ("swap the arms of two-armed ifs", SwapIfElse),
+    ("expand augmented assignments of locals", ExpandAugAssign),
+    ("rename comprehension variables", RenameCompVars),
+    ("swap the operands of == / != / is", SwapEqOperands),
+    ("turn elif chains into nested ifs", ElifToNested),
 ]
 
 
